@@ -37,6 +37,14 @@ extern "C" void h_hist() {
         (void)n; vp_fs_truncate("b.blf", 144 + 2 * (32 + 64) + 40);   // two complete containers = 2 objects + 32 bytes of the third
         readable = -1;      // number of deliverable objects is not asserted for the damaged file
     }
+#ifdef GARBAGE_FILE
+    {   // the file exists but is not a BLF file: its signature is wrong. open() reports that by throwing; whatever the
+        // application does next (close, destroy, open something else) must work and release everything
+        static unsigned char img[4096]; long n = vp_fs_get("b.blf", img, sizeof img);
+        img[0] = 'X'; img[1] = 'Y'; vp_fs_put("b.blf", img, n); readable = -1;
+    }
+#endif
+    bool failedOpen = false;
     File * f = new File; f->compressionLevel = 0; f->setDefaultLogContainerSize(64);
     // queue capacity scaled down from 10 to 2: with 5 objects in the file the reader thread waits on the full queue
     f->m_readWriteQueue.setBufferSize(2);
@@ -51,7 +59,15 @@ extern "C" void h_hist() {
         switch (op) {
         case OPEN_MISSING_IN: f->open(VP_FILE("missing.blf"), std::ios_base::in); break;
         case OPEN_UNWRITABLE_OUT: f->open(VP_FILE("ro/x.blf"), std::ios_base::out); break;
+#ifdef GARBAGE_FILE
+        case OPEN_VALID_IN: {
+            bool threw = false;
+            try { f->open(VP_FILE("b.blf"), std::ios_base::in); } catch (Vector::BLF::Exception &) { threw = true; }
+            if (state == CLOSED && !failedOpen) { vp_assert(threw, "open() of a file with a wrong signature reports it by a library exception"); failedOpen = true; opened = true; }
+            break; }
+#else
         case OPEN_VALID_IN: f->open(VP_FILE("b.blf"), std::ios_base::in); if (state == CLOSED) { state = READING; opened = true; } break;
+#endif
         case OPEN_OUT: f->open(VP_FILE("a.blf"), std::ios_base::out); if (state == CLOSED) { state = WRITING; opened = true; } break;
         case READ: {
             ObjectHeaderBase * o = f->read();
@@ -70,7 +86,11 @@ extern "C" void h_hist() {
         case CLOSE: vp_yield(); f->close(); state = CLOSED; break;      // workers parked wherever they block
         case DESTROY: vp_yield(); delete f; f = nullptr; state = CLOSED; break;
         }
-        if (f) {
+        if (f && failedOpen) {
+            // after the failed open only close / destroy are meaningful; close() must leave the File closed
+            if (op == CLOSE) { vp_assert(!f->is_open(), "is_open() is false after close()"); failedOpen = false; }
+            else if (op != OPEN_VALID_IN) { vp_reach("h_hist:end"); delete f; vp_check_leaks(); return; }
+        } else if (f) {
             vp_assert(f->is_open() == (state != CLOSED), "is_open() reports the documented state");
             if (state == READING) {
                 vp_assert(f->eof() == sawNull, "eof() is set exactly after read() returned null");
